@@ -261,6 +261,7 @@ class Union():
             self.points_bounds.pop(index)
             self.bounds.pop(index)
             self.log_v_all = np.array([bound.log_v for bound in self.bounds])
+            self.block = np.delete(self.block, index)
             self.reset()
             return True
         else:
